@@ -266,6 +266,7 @@ func main() {
 		fmt.Printf("%s %s seed=%d: evaluations=%d distinct_nontrivial=%d shards=%d wall=%.1fs violations=%d\n",
 			id, tier, seed, ev.evals, ev.distinct, cfg.Shards, time.Since(start).Seconds(), violations)
 	}
+	os.RemoveAll(outDir) // (os.Exit does not run deferred calls)
 	if violations > 0 {
 		os.Exit(1)
 	}
